@@ -24,7 +24,7 @@ from engines.fit_c14 import SHAPES, make_func
 NAME = "fit"
 
 UNCOND = ["Weibull0", "LogNormal", "Normal", "ExpWeibull", "LogNormalNormFit"]
-COND = ["LogNormal", "Normal", "Weibull0", "ExpWeibullD", "LogNormalNormFit"]
+COND = ["LogNormal", "Normal", "Weibull0", "ExpWeibullD", "LogNormalNormFit", "NormalMu", "LogNormalMu"]
 
 # template spec: family, fixed params, free params with truth ranges
 TEMPLATES = {
@@ -34,6 +34,9 @@ TEMPLATES = {
     "ExpWeibull": ("ExpWeibull", {}, {"alpha": (1.5, 4.0), "beta": (1.1, 2.2), "delta": (0.8, 3.0)}),
     "ExpWeibullD": ("ExpWeibull", {"delta": 2.0}, {"alpha": (1.5, 4.0), "beta": (1.1, 2.2)}),
     "LogNormalNormFit": ("LogNormalNormFit", {}, {"mu_norm": (3.0, 8.0), "sigma_norm": (0.5, 1.8)}),
+    # a fixed parameter that comes *before* the conditional one in the family's parameter order
+    "NormalMu": ("Normal", {"mu": 5.0}, {"sigma": (0.5, 2.0)}),
+    "LogNormalMu": ("LogNormal", {"mu": 0.9}, {"sigma": (0.15, 0.6)}),
 }
 
 STRUCTS = {2: [[None, 0]], 3: [[None, 0, 0], [None, 0, 1], [None, None, 0], [None, None, 1]]}
@@ -93,7 +96,8 @@ def generate(prop, seed, tier):
         d = {"template": tname, "cond_on": cond[i], "truth": {p: core.r6(S.uni(*r)) for p, r in free.items()}, "deps": {}, "method": None, "weights": None}
         if fam == "ExpWeibull":
             if cond[i] is None or S.chance(0.7):
-                d["method"] = S.pick(["wlsq", "lsq"]) if cond[i] is not None or S.chance(0.9) else "mle"
+                # the method keyword is matched case-insensitively by the distributions
+                d["method"] = S.pick(["wlsq", "lsq", "wlsq", "lsq", "WLSQ", "Lsq"]) if cond[i] is not None or S.chance(0.9) else "mle"
                 d["weights"] = S.pick(["linear", "quadratic", "cubic"])
             else:
                 d["method"] = S.pick(["mle", None, None])  # None: the model's default (MLE) is filled in
@@ -183,7 +187,8 @@ def make_data(scen, st):
         else:
             g = cols[d["cond_on"]]
             x = np.empty(n)
-            pv = {q: dep_truth(d, q, g) for q in free}
+            pv = dict(fixed)
+            pv.update({q: dep_truth(d, q, g) for q in free})
             # vectorised ppf through scipy broadcasting
             import scipy.stats as sts
 
@@ -194,7 +199,7 @@ def make_data(scen, st):
             elif fam == "Weibull":
                 x = sts.weibull_min.ppf(u, pv["beta"], loc=0.0, scale=pv["alpha"])
             elif fam == "ExpWeibull":
-                x = sts.exponweib.ppf(u, fixed["delta"], pv["beta"], scale=pv["alpha"])
+                x = sts.exponweib.ppf(u, pv["delta"], pv["beta"], scale=pv["alpha"])
             elif fam == "LogNormalNormFit":
                 mu = np.log(pv["mu_norm"] / np.sqrt(1 + pv["sigma_norm"] ** 2 / pv["mu_norm"] ** 2))
                 sg = np.sqrt(np.log(1 + pv["sigma_norm"] ** 2 / pv["mu_norm"] ** 2))
